@@ -72,6 +72,11 @@ func init() {
 			// three live subscriptions established together; the oldest ends first
 			ps = append(ps, Param{Name: "none-k3-sync", Bound: pair, V: map[string]int{"k": 3, "sync": 1}, S: map[string]string{"c1": "none", "c2": "none"}})
 			ps = append(ps, Param{Name: "close+none-rc0-k1-desc", Bound: single, V: map[string]int{"k": 1, "desc": 1}, S: map[string]string{"c1": "close", "c2": "none"}})
+			// a second subscription made after the reconnect (the new connection numbers its channels
+			// from 1 again), then the context of the first, long dead subscription is cancelled
+			for _, c := range []string{"fin", "rst"} {
+				ps = append(ps, Param{Name: c + "-resub-cancelold", Bound: pair, V: map[string]int{"k": 2, "reconnect": 1, "resub": 1}, S: map[string]string{"c1": c, "c2": "none"}})
+			}
 			ps = append(ps, Param{Name: "fin+none-rc1-k1-desc", Bound: single, V: map[string]int{"k": 1, "reconnect": 1, "desc": 1}, S: map[string]string{"c1": "fin", "c2": "none"}})
 			return ps
 		},
@@ -107,6 +112,30 @@ func termBody(s *vsched.Sched, p Param) {
 		}
 	}
 	obs := NewObs()
+	resub := p.I("resub") == 1
+	if resub {
+		sw.srv.prodGate = map[int]string{2: "prodb-go"}
+		s.EnvEnabled = func(name string) bool {
+			switch name {
+			case "subb-go": // the link has been re-established
+				n := 0
+				for _, d := range sw.w.Net.Dials() {
+					if d.OK {
+						n++
+					}
+				}
+				_, fired := obs.Get("fired-" + p.Str("c1"))
+				return fired && n >= 2
+			case "cancelold-go":
+				_, _, ret, _, _ := sw.subs[1].snapshot()
+				return ret
+			case "prodb-go":
+				_, ok := obs.Get("cancelled-old")
+				return ok
+			}
+			return true
+		}
+	}
 	s.Teardown = func() {
 		for _, c := range sw.cancel {
 			c()
@@ -156,6 +185,9 @@ func termBody(s *vsched.Sched, p Param) {
 				s.Violate("C08: the channel handed to the caller of subscription %d was never closed (causes: %s, %s; reconnect=%d; received %v); alive: %s",
 					i, p.Str("c1"), p.Str("c2"), p.I("reconnect"), got, strings.Join(s.Alive(), " "))
 			}
+			if resub && i == 1 && fmt.Sprint(got) != fmt.Sprint(want) {
+				s.Violate("C08: the subscription made after the reconnect received %v, handler sent %v (only the context of the earlier, dead subscription was cancelled)", got, want)
+			}
 			if p.Str("c1") == "none" && p.I("respcut") == 0 && fmt.Sprint(got) != fmt.Sprint(want) {
 				s.Violate("C07: undisturbed subscription %d received %v, want %v", i, got, want)
 			}
@@ -174,6 +206,18 @@ func termBody(s *vsched.Sched, p Param) {
 	s.Begin()
 	for i := 0; i < k; i++ {
 		i := i
+		if resub && i == 1 {
+			s.Go("zsub-b", func() {
+				s.Env("subb-go")
+				sw.subscribe(s, 1, n, func() bool { return true })
+			})
+			s.Go("zzcancel-old", func() {
+				s.Env("cancelold-go")
+				sw.cancel[0]()
+				obs.Set("cancelled-old", "1")
+			})
+			continue
+		}
 		s.Go(fmt.Sprintf("sub-%d", i), func() {
 			ni := n
 			if p.I("sync") == 1 && i == 0 {
